@@ -482,7 +482,9 @@ pub fn digest_case(seed: u64, i: u64) -> String {
         }
     }
     let r = guarded(|| match AsepriteFile::read(&bytes[..]) {
-        Err(e) => format!("err:{}", e.to_string().chars().take(60).collect::<String>()),
+        // a refused file: only the refusal is compared. Which of several defects of a file is reported (and with
+        // what text) may depend on hash-map iteration order, i.e. on the process; C16 quantifies over loadable files
+        Err(_) => "err".to_string(),
         Ok(f) => {
             if f.width() * f.height() > 1 << 18 {
                 return "skipped-large".to_string();
